@@ -182,6 +182,10 @@ func (w *world) record(side int) bool {
 	}
 	rec := agg.Rec{Key: w.key, Node: node, FlowType: w.sc.flowType, Egress: w.sc.egress, Ingress: w.sc.ingress, Start: 1000, End: w.ends[side],
 		EndReason: 2, TCPState: "ESTABLISHED", Str: v.Str, U8: v.U8, U16: v.U16, I32: v.I32, IP: v.IP}
+	if side == 1 && w.k%2 == 1 {
+		// the destination node lays its records out differently (same fields, same template id)
+		rec.Rotate = 3 + w.k%17
+	}
 	for i := 0; i < agg.NC; i++ {
 		rec.Total[i] = uint64(w.ends[side]) * 10
 		rec.Delta[i] = 10
